@@ -32,13 +32,13 @@ Proof.
 Qed.
 
 Lemma proxy_monitor_accepts_model base secret secure origin_form host clock now :
-  mac_wf mac -> host_plain host = true -> host <> [] -> (clock <= now <= clock + 60)%Z ->
+  host <> [] -> (clock <= now <= clock + 60)%Z ->
   let r := proxy_sign_out mac base secret secure origin_form host now in
   proxy_holds mac {| po_base := base; po_secret := secret; po_secure := secure; po_origin_form := origin_form;
                      po_host := host; po_clock := clock; po_ts := now; po_status := p_status r;
                      po_cleared := p_clears r; po_obs_base := l_base (p_loc r); po_params := l_params (p_loc r) |} = true.
 Proof.
-  intros _ Hp Hne Hclk. cbv zeta. unfold proxy_holds, proxy_sign_out.
+  intros Hne Hclk. cbv zeta. unfold proxy_holds, proxy_sign_out.
   cbn [po_base po_secret po_secure po_origin_form po_host po_clock po_ts po_status po_cleared po_obs_base po_params
        p_status p_clears p_loc l_base l_params get_sign_out_url].
   destruct (loc_fields mac base secret (url_string (proxy_scheme secure origin_form) host) now) as [E1 [E2 E3]].
@@ -46,11 +46,9 @@ Proof.
   rewrite !str_eqb_refl. cbn [map fst]. rewrite strs_eqb_refl. cbn [andb].
   replace (clock <=? now)%Z with true by lia. replace (now <=? clock + 60)%Z with true by lia.
   change ((302 =? 302)%Z) with true. cbn [andb]. rewrite !andb_true_r.
-  destruct origin_form.
-  - rewrite (url_string_origin_form secure host Hp). unfold SignOut_proofs.colon_slash_slash, colon_slash_slash.
-    rewrite str_eqb_refl. reflexivity.
-  - cbn [negb andb]. unfold proxy_scheme. rewrite (url_string_plain [] host Hp Hne). cbn [app].
-    rewrite str_eqb_refl. apply orb_true_r.
+  rewrite (url_string_escaped (proxy_scheme secure origin_form) host (or_intror Hne)).
+  destruct origin_form; destruct secure; cbn [proxy_scheme negb andb app s_https s_http colon_slash_slash];
+    rewrite ?str_eqb_refl, ?orb_true_r; reflexivity.
 Qed.
 
 End M.
